@@ -309,7 +309,11 @@ func shape(f *ast.File) string {
 					s.a("fn", v2.Name.Name)
 				}
 				s.names(paramNames(v2.Type.Params))
-				s.a(nres(v2.Type.Results))
+				if nres(v2.Type.Results) > 0 { // declarations: the model only distinguishes "has results"
+					s.a(1)
+				} else {
+					s.a(0)
+				}
 				if v2.Body != nil {
 					s.stmts(v2.Body.List)
 				} else {
